@@ -22,7 +22,7 @@ def _reparam(spec, meta, inputs):
     for inp in inputs:
         inp = dict(inp)
         try:
-            inp["params"] = classes.level_params(spec, inp["extents"], syms)
+            inp["params"] = classes.level_params(spec, inp["extents"], syms, strict=len(spec["exprs"]) == 1)
         except (classes.AmbiguousNames, KeyError):
             return None
         extra = (meta.get("extra_params") or {})
